@@ -90,7 +90,7 @@ func NewCollectionReader(id string,
 		channelSeekPositions: seekPosition,
 		channelStartTs:       channelStartTs,
 		shouldReadFunc:       shouldReadFunc,
-		errChan:              make(chan error),
+		errChan:              make(chan error, 1), // sendError doesn't wait, and the first error may come before its receiver waits
 		retryOptions:         util.GetRetryOptions(readerConfig.Retry),
 	}
 	return reader, nil
